@@ -63,6 +63,8 @@ XROOT = z3.Function("xml_root", Blob, XmlT)
 NEL = z3.Function("xml_iter_len", XmlT, I)                    # ... root.iter() = all elements in document order
 EL = z3.Function("xml_iter_elem", XmlT, I, XmlT)
 TAG = z3.Function("xml_tag", XmlT, S)                         # Clark notation {namespace}local
+RAWHAS = z3.Function("raw_bytes_contain", Blob, S, B)          # the member's RAW bytes contain the byte string (rendered latin-1)
+ASCII_COMPAT = z3.Function("xml_encoding_is_ascii_compatible", Blob, B)   # the document is serialised in UTF-8 / ISO-8859-x / ... (not UTF-16/32)
 AFTER_LAST = z3.Function("text_after_last", S, S, S)          # the part of s after the last occurrence of sep (all of s if none)
 
 
@@ -316,6 +318,54 @@ def m_xml_iter(ex, st, obj, args, kwargs, node):
     return [(st, VSeq(NEL(obj.t), lambda k: VExt("XmlElem", EL(obj.t, k)), "XmlElem"))]
 
 
+ENC_ELEM_NAME = "encryption-data"
+
+
+def raw_has(ex, st, blob_t, needle):
+    """`needle in blob` / blob.find(needle) on the RAW bytes of a ZIP member (ASSUMED view): an uninterpreted predicate of
+    (member, needle).  What links it to the XML tree is encoding-dependent: an element name occurs literally in the raw bytes
+    only when the document is serialised in an ASCII-compatible encoding (XML 1.0 4.3.3: UTF-16 documents are ordinary XML
+    and the parser reads them) -- so a byte-level test is no necessary condition for `the tree has the element`."""
+    if not isinstance(needle, (bytes, bytearray)):
+        ex._imprecise("raw byte search with a needle that is not a constant")
+        return z3.Bool(fresh_name("rawhas"))
+    txt = bytes(needle).decode("latin-1")
+    t = RAWHAS(blob_t, sv(txt))
+    if not txt:
+        st.assume(t)
+    elif txt in ENC_ELEM_NAME:
+        st.assume(z3.Implies(z3.And(HAS_ENC_ELEM(blob_t), ASCII_COMPAT(blob_t)), t))
+    if not (len(txt) >= 2 and all(0x21 <= c <= 0x7E for c in needle)):
+        # (one byte / NUL-padded / non-ASCII needles: whether a counter-model is a real document is not decided here)
+        ex._imprecise("raw byte search in an XML member with a needle that is not plain ASCII text")
+    return t
+
+
+def _needle(ex, v):
+    if isinstance(v, VBytes):
+        c = ex.py_const(v)
+        return c if isinstance(c, (bytes, bytearray)) else None
+    return None
+
+
+def m_blob_find(ex, st, obj, args, kwargs, node):
+    """bytes.find(needle) / .index / .count on a member's raw bytes: >= 0 (> 0 for count) iff the bytes contain the needle."""
+    name = getattr(getattr(node, "func", None), "attr", "find")
+    if len(args) != 1 or kwargs:
+        return ex.havoc_call(st, f"bytes.{name}", args, node)
+    t = raw_has(ex, st, obj.t, _needle(ex, args[0]))
+    r = z3.Int(fresh_name(name))
+    if name == "index":
+        st = ex.fork_raise(st, z3.Not(t), "ValueError")
+        if st is None:
+            return []
+    if name == "count":
+        st.assume(z3.And(r >= 0, (r > 0) == t))
+    else:
+        st.assume(z3.And(r >= -1, (r >= 0) == t))
+    return [(st, VInt(r))]
+
+
 def _const_sep(args, i=1):
     return args[i].const() if len(args) > i and isinstance(args[i], VStr) and args[i].const() else None
 
@@ -392,6 +442,8 @@ def install_container_models(reg):
     reg.ext_models["zipfile.is_zipfile"] = m_is_zipfile
     reg.method_models[("ZipFile", "read")] = m_zip_read
     reg.method_models[("Blob", "decode")] = m_blob_decode
+    for nm in ("find", "rfind", "index", "count"):
+        reg.method_models[("Blob", nm)] = m_blob_find
     reg.ext_models["struct.Struct"] = m_struct_new
     reg.method_models[("Struct", "unpack_from")] = m_struct_unpack_from
     reg.ext_models["struct.unpack_from"] = m_struct_unpack_from_fn
@@ -831,6 +883,11 @@ class C08Executor(readfile.ReadFileExecutor):
                         return [(st, VBool(t if op == "Eq" else z3.Not(t)))]
         return super().compare(st, op, a, b, node)
 
+    def contains(self, st, container, item, node):
+        if isinstance(container, VExt) and container.sort == "Blob":            # needle in <raw bytes of a ZIP member>
+            return [(st, VBool(raw_has(self, st, container.t, _needle(self, item))))]
+        return super().contains(st, container, item, node)
+
     def e_GeneratorExp(self, n, st):
         from pyvc.ops import Unsupported
         mark = len(self.sinks[-1])
@@ -1136,8 +1193,10 @@ EXECUTOR_KW = {}
 # ---------------------------------------------------------------- contracts --
 def xml_axiom(f):
     """ASSUMED XML fact: an element named (prefix:)encryption-data occurs in the tree only if that
-    name occurs literally in the serialised text (element names cannot be escaped)."""
-    return z3.Implies(HAS_ENC_ELEM(manifest_blob(f)), z3.Contains(manifest_text(f), sv("encryption-data")))
+    name occurs literally in the serialised text (element names cannot be escaped) -- for documents in an ASCII-compatible
+    encoding only: the UTF-8 decoding of a UTF-16 manifest does not contain the name (round 6: the unconditional form was wrong)."""
+    b = manifest_blob(f)
+    return z3.Implies(z3.And(HAS_ENC_ELEM(b), ASCII_COMPAT(b)), z3.Contains(manifest_text(f), sv(ENC_ELEM_NAME)))
 
 
 def xls_loop_view(lc):
@@ -2537,11 +2596,13 @@ def known_findings(kf, violations, repo, tier):
 
 
 TRUSTED = ["olefile / zipfile / pypdf / ElementTree present the container faithfully (the abstract views below)",
-           "the assumed XML fact: an element name occurs literally in the serialised manifest"]
+           "the assumed XML fact: an element name occurs literally in the serialised manifest when its encoding is ASCII-compatible"]
 ASSUMED_MODELS = [
     "olefile.isOleFile(f) / OleFileIO(f): predicate and directory view of the same bytes; exists(name); openstream(name).read() = whole stream or failure (READABLE)",
     "zipfile.is_zipfile / ZipFile(f) / infolist() / ZipInfo.is_dir() / flag_bits / filename; ZipFile.read(name): KeyError iff no such member",
-    "bytes.decode('utf-8', errors='ignore') of the ODF manifest is its text (UTF-8 producers; a UTF-16 manifest is outside the model)",
+    "bytes.decode('utf-8', errors='ignore') of the ODF manifest is its text when the manifest is in an ASCII-compatible encoding (ASCII_COMPAT); "
+    "`needle in manifest` / .find / .index / .count on the raw member bytes = uninterpreted RAWHAS(member, needle): an element name occurs in the "
+    "raw bytes only under ASCII_COMPAT (UTF-16 manifests are inside the model: a byte-level pre-filter does not see their element names)",
     "struct.Struct('<H'|'<I').unpack_from: little-endian unsigned field, struct.error when out of range",
     "int.from_bytes(b, 'little') for 0..2 bytes",
     "SevenZipFile(f).__enter__ parses the archive; when the parse reaches an AES coder of the encoded header the decoder's encryption signal escapes "
